@@ -1,6 +1,7 @@
 package main
 
 import (
+	"go/token"
 	"go/types"
 
 	"golang.org/x/tools/go/ssa"
@@ -105,6 +106,50 @@ func c42(c *Ctx) {
 		sn := one(c, "send in sendNewLocked", callsIn(fn, sendCM))
 		c.ArgIs(sn, 4, "new-request-with-stored-version", FieldLoad(fVer))
 		c.ArgIs(sn, 5, "new-request-with-stored-nonce", FieldLoad(fNonce))
+	})
+	c.Ob("send-discipline", "R2", "a failed send is never turned into success (sendNewLocked, sendExisting, sendMessageLocked and the stream runner); on a new stream every type with subscriptions is re-requested (the scan over the per-type states is never left early) and watch timers are started for the names just requested; a response is attributed only to the type whose URL equals the response's", 6, func() {
+		n := 0
+		for _, fn := range []string{"adsStreamImpl.sendNewLocked", "adsStreamImpl.sendExisting", "adsStreamImpl.sendMessageLocked", "adsStreamImpl.recvMessage"} {
+			n += c.ErrorsPropagate(c.fn(xdsc, fn), fn, nil)
+		}
+		c.Expect(n >= 3, nil, nil, "error-sites", "fewer tested send/receive errors than on the reviewed tree")
+		se := c.fn(xdsc, "adsStreamImpl.sendExisting")
+		c.Expect(c.NoEarlyExit(se, FieldLoad(c.field(xdsc, "adsStreamImpl", "resourceTypeState")), "sendExisting:every-type-visited") == 1, nil, se, "sendExisting:scan", "no scan over the per-type states")
+		for _, fn := range []string{"adsStreamImpl.sendNewLocked", "adsStreamImpl.sendExisting"} {
+			f := c.fn(xdsc, fn)
+			send := one(c, "send in "+fn, callsIn(f, sendCM))
+			tm := one(c, "startWatchTimersLocked in "+fn, callsIn(f, Callee(xdsc, "adsStreamImpl.startWatchTimersLocked")))
+			c.Dominates(send, tm, fn+":timers-after-send")
+			c.Expect(sameValue(tm.Common().Args[2], send.Common().Args[2]) || tm.Common().Args[2] == send.Common().Args[2], tm, f, fn+":timers-for-the-requested-names", "watch timers are started for names other than those just requested")
+			// every successful send is followed by starting the timers before the next request / return
+			c.MustPass(fn+":timers-started-after-every-successful-send", pathQuery{Fn: f, Starts: []ssa.Instruction{send}, Barrier: func(in ssa.Instruction) bool { return in == ssa.Instruction(tm) },
+				Target: func(in ssa.Instruction) bool { return in == ssa.Instruction(send) || isReturn(in) },
+				EdgeBlock: func(from, to *ssa.BasicBlock) bool {
+					_, ok := hasFact(edgeFacts(from, to), NotNil(func(v ssa.Value) bool { return v == send.Value() }))
+					return ok
+				}}, send)
+		}
+		// onRecv: type chosen by URL equality
+		or := c.fn(xdsc, "adsStreamImpl.onRecv")
+		nh := 0
+		for _, b := range or.Blocks {
+			isRangeHdr := false
+			for _, in := range b.Instrs {
+				if nx, ok := in.(*ssa.Next); ok {
+					if rg, ok := nx.Iter.(*ssa.Range); ok && FieldLoad(c.field(xdsc, "adsStreamImpl", "resourceTypeState"))(rg.X) {
+						isRangeHdr = true
+					}
+				}
+			}
+			if !isRangeHdr {
+				continue
+			}
+			nh++
+			bp := breakPreds(b)
+			c.Expect(len(bp) == 1, b.Instrs[0], or, "onRecv:type-search-stops-at-the-match", "the type search has no (or more than one) early exit")
+			c.EnteredOnlyWhenExcept(b.Succs[1], "onRecv:type-selected-only-by-equal-URL", func(p *ssa.BasicBlock) bool { return p == b }, Cmp(FieldLoad(c.field(xdsc, "ResourceType", "TypeURL")), token.EQL, ParamV("url")))
+		}
+		c.Expect(nh == 1, nil, or, "onRecv:type-search", "no search of the per-type states by URL")
 	})
 	c.Ob("node-first", "R2", "the node identifier is attached exactly when the first-request flag is set; the flag is raised only after a successful stream creation and lowered only after a successful send", 5, func() {
 		f := c.fn(xdsc, "adsStreamImpl.sendMessageLocked")
